@@ -70,6 +70,7 @@ UNITS["rpc_registry"] = {
     "harness_mod": "server::verif_contracts",
     "kani_flags": [],
     "env": {"VCOLL_CAP": "4"},
+    "max_jobs": 4,  # the add_handlers harnesses take ~7 GB each
     "sources": ["datacake-rpc/src/server.rs"],
     "slice": [{
         "mode": "items", "src": "datacake-rpc/src/server.rs", "out": "server.rs",
@@ -214,7 +215,7 @@ UNITS["membership"] = {
     "crate": "harness/membership",
     "harness_mod": "watch::verif_contracts",
     "kani_flags": [],
-    "env": {"VCOLL_CAP": "2", "VCOLL_VCAP": "2"},
+    "env": {"VCOLL_CAP": "3", "VCOLL_VCAP": "3"},
     "sources": ["datacake-node/src/lib.rs", "datacake-node/src/node.rs"],
     "slice": [
         {"mode": "items", "src": "datacake-node/src/node.rs", "out": "node_types.rs",
@@ -514,11 +515,16 @@ _k("os_versions_merge", "orswot_m2", "B", "NodeVersions::merge",
 _RB = "4 URIs, 3 services, <= 2 keys per service; arbitrary start state satisfying the registry invariant"
 _k("reg_lookup", "rpc_registry", "B", "ServerState::get_handler",
    "for every state satisfying I: a URI is dispatched iff its key is owned by a registered service, to the handler registered for it", bound=_RB)
-for _n, _d, _t in (("reg_add_k0", "one key (URI 0)", "quick"), ("reg_add_k01", "two keys (URIs 0,1)", "quick"), ("reg_add_k2", "one key (URI 2)", "thorough"),
-                   ("reg_add_k13", "two keys (URIs 1,3)", "thorough"), ("reg_add_none", "no key", "thorough")):
+# add_handlers: the service and WHICH keys are added are concrete per harness (a symbolic service or key set exceeds 20 GB); the registry state
+# (who owns URIs 0 and 1, handler identities, empty entries) and the new handler identities stay symbolic. ~6 min / 7 GB each.
+for _n, _d, _t in (("reg_add_k0_s1", "one key (URI 0) to service b", "quick"), ("reg_add_k01_s0", "two keys (URIs 0,1) to service a", "quick"),
+                   ("reg_add_k0_s0", "one key (URI 0) to service a", "thorough"), ("reg_add_k0_s2", "one key (URI 0) to service c", "thorough"),
+                   ("reg_add_k01_s1", "two keys (URIs 0,1) to service b", "thorough"), ("reg_add_k01_s2", "two keys (URIs 0,1) to service c", "thorough"),
+                   ("reg_add_k2_s1", "one key (URI 2) to service b", "thorough"), ("reg_add_k13_s1", "two keys (URIs 1,3) to service b", "thorough"),
+                   ("reg_add_none_s1", "no key to service b", "thorough")):
     _k(_n, "rpc_registry", "B", "ServerState::add_handlers",
-       "adding " + _d + " to any service from any state satisfying I (a key is unowned or already owned by that service): the added handlers are served under the "
-       "service, keys recorded under it (including keys it had before), everything else unchanged, I preserved", bound=_RB, tier=_t)
+       "adding " + _d + " from any state satisfying I in which URIs 2,3 are unowned (a key is unowned or already owned by that service): the added handlers are served under the "
+       "service, keys recorded under it (INCLUDING the keys it had before), everything else unchanged, I preserved", bound=_RB + "; added key set and service concrete per harness", tier=_t)
 _k("dp_dispatch", "rpc_dispatch", "P", "try_handle_request (net/server.rs)",
    "for ANY path (<= 15 ASCII bytes), any registry answer, any handler reply: the registry is asked exactly once for the request's own path byte for byte; a handler exists => it runs exactly "
    "once on this request's peer address, headers and body and its reply or error is returned unchanged; none => Status::unavailable (unknown service) and no handler runs")
@@ -553,6 +559,9 @@ _k("ac_on_purge", "actor", "B", "KeyspaceActor::on_purge_tombstones",
    "<= 2 tombstones: a tombstone leaves the set iff it left storage (failed removals re-added); only tombstones older than the cut-off; live documents untouched",
    bound="|dead| <= 2")
 
+_k("ac_bulk_dup_id", "actor", "B", "KeyspaceActor::on_multi_set",
+   "concrete history on a blank node: one bulk put carrying the SAME id twice, newer document first (stamps symbolic, t_new > t_old), storage succeeds: set and store must hold the same "
+   "stamp for that id -- FAILS on the pinned tree (defect D9, known finding: storage is fed in request order, the set in stamp order)", bound="one concrete history (symbolic id and stamps)")
 _k("ac_on_diff", "actor", "B", "KeyspaceActor::on_diff",
    "the reply is exactly the difference the set computes against the peer's state (contract os_diff_list, linked through SpecSet): modifications = the peer's live entries this "
    "replica lacks, removals = the peer's tombstones it lacks (whether it holds the key live, as an older tombstone, or not at all), each with the peer's stamp, nothing dropped or added; "
@@ -573,10 +582,14 @@ _k("gr_binding_preserved", "group", "P", "KeyspaceGroup::get_or_create_keyspace 
    "arbitrary group map, environment steps at both former await points: result == map'[name]; a binding once set (before the call or by another task in the window) is never replaced")
 
 # ---- unit membership
-_k("mb_delta_step", "membership", "B", "watch_membership_changes",
-   "two consecutive snapshots over ids {self,1} (first arbitrary => inductive step), each id absent/present, 2 addresses, 2 DCs, all symbolic: joined/left exact (left as members of the PREVIOUS "
-   "snapshot with the address they had); consumer fold == others(cur); departed addresses disconnected; set_nodes gets exactly cur's DC layout",
-   bound="2 snapshots x 2 ids (self + one other node) x 2 addresses x 2 DCs (three ids: 22 M SAT variables, out of memory at 24 GB)")
+for _p in range(16):
+    _b = format(_p, "04b")
+    _k(f"mb_step_{_b}", "membership", "B", "watch_membership_changes",
+       f"two consecutive snapshots over ids {{self,1,2}}; presence of nodes 1,2 in the previous / current snapshot = {_b[:2]} / {_b[2:]} (concrete per harness), addresses (3, shared pool: address change "
+       "and take-over by another id included) and data centres (2) symbolic; the first snapshot is arbitrary within the bound => inductive step: joined/left exact (left as members of the "
+       "PREVIOUS snapshot with the address they had); consumer fold == others(cur); departed unused addresses disconnected, nothing else; set_nodes gets exactly cur's DC layout",
+       bound="2 snapshots x 3 ids (self + two other nodes) x 3 addresses x 2 DCs; presence pattern concrete per harness (all 16 patterns registered)",
+       tier="quick")
 
 _k("mb_slow_subscriber", "membership", "B", "watch_membership_changes + the latest-value delta channel",
    "concrete history: node 1 joins, a second (unchanged) snapshot is processed before the subscriber reads: the subscriber, handed the latest delta only, must still hold node 1 -- "
@@ -633,6 +646,11 @@ _v("lemmas_bulk", "lemmas/bulk.rs", "lemma layer over sk_safe / sk_max_stamp / s
    "lands as Live(t)/Dead(t) when each id occurs at most once in the batch", 18, tier="thorough")
 
 # --------------------------------------------------------------------------- properties
+for _i, _d in enumerate(("all fields zero", "all fields at their maximum (2^32-1 s, fraction 249, counter FFFF, node 255)", "small values, hex counter with a letter digit", "ten-digit seconds, three-digit fraction")):
+    _k(f"ts_print_parse_{_i}", "timestamp", "B", "<HLCTimestamp as Display>::fmt + FromStr::from_str",
+       "printing then parsing is the identity on the concrete stamp with " + _d + " (Display and the REAL std integer parsers executed, nothing stubbed)",
+       bound="one concrete stamp", tier="thorough")
+
 PROPERTIES = {
     "C09": {
         "obligations": [
@@ -658,7 +676,7 @@ PROPERTIES = {
         "level": "proof", "explanation": "", "assumptions": [],
     },
     "C02": {
-        "obligations": ["ac_on_set", "ac_on_del", "ab_on_multi_set", "ab_on_multi_del", "lemmas_bulk", "ac_on_purge",
+        "obligations": ["ac_on_set", "ac_on_del", "ab_on_multi_set", "ab_on_multi_del", "lemmas_bulk", "ac_on_purge", "ac_bulk_dup_id",
                         "os_will_apply", "os_insert_contract", "os_delete_contract", "os_purge_all", "os_raw_tombstones"],
         "level": "proof", "explanation": "", "assumptions": [],
     },
@@ -683,10 +701,10 @@ PROPERTIES = {
                         "crash points: the rebuilt state is a function of storage alone (the contract quantifies over every storage content), so the in-memory state at the crash is irrelevant"],
     },
     "C16": {
-        "obligations": ["mb_delta_step", "mb_slow_subscriber", "lemmas_membership"],
+        "obligations": [f"mb_step_{p:04b}" for p in range(16)] + ["mb_slow_subscriber", "lemmas_membership"],
         "level": "other",
         "explanation": "bounded contract checking (class B): the delta function of watch_membership_changes for one transition from an ARBITRARY previous snapshot "
-                       "(self + one other node x 2 addresses x 2 data centres, all symbolic -- an inductive step over snapshot histories inside that size) plus the unbounded Verus fold lemma "
+                       "(self + two other nodes x 3 shared addresses x 2 data centres; presence pattern concrete per harness, all 16 registered; addresses and data centres symbolic -- an inductive step over snapshot histories inside that size) plus the unbounded Verus fold lemma "
                        "(a consumer applying every event holds the last snapshot)",
         "assumptions": [],
     },
@@ -708,17 +726,20 @@ PROPERTIES = {
                         "what is proved is the frame contract of the code in /repo"],
     },
     "C13": {
-        "obligations": ["reg_lookup", "reg_remove_step", "dp_dispatch"] + [f"dp_path_{i}" for i in range(8)],
+        "obligations": ["reg_lookup", "reg_remove_step", "reg_add_k0_s1", "reg_add_k01_s0", "reg_add_k0_s0", "reg_add_k0_s2", "reg_add_k01_s1", "reg_add_k01_s2", "reg_add_k2_s1", "reg_add_k13_s1", "reg_add_none_s1", "dp_dispatch"] + [f"dp_path_{i}" for i in range(8)],
         "level": "other",
         "explanation": "bounded contract checking (class B): one add/remove step from an ARBITRARY registry state satisfying the invariant, "
                        "within 3 services x 2 keys over 4 URIs -- an inductive step, so it covers every add/remove history inside that size; "
-                       "not counted as proved because the registry maps are concrete with a capacity bound",
-        "assumptions": ["HTTP dispatch glue (net/server.rs try_handle_request -> get_handler -> Status::unavailable) is read, not verified"],
+                       "not counted as proved because the registry maps are concrete with a capacity bound; the dispatch decision of try_handle_request == the registry's answer "
+                       "for the request's own path is proved for every path (class P)",
+        "assumptions": ["the dispatch glue try_handle_request is under contract (dp_dispatch: class P, any path; dp_path_*: concrete unusual paths) with the registry linked by contract; "
+                        "hyper connection handling and handle_connection/handle_message (response framing) are read, not verified",
+                        "add_handlers: service and added key set concrete per harness (9 combinations), registry state symbolic"],
     },
     "C10": {
         "obligations": [
             "ts_pack_roundtrip", "ts_new_truncates", "ts_order_lex", "ts_from_str_total",
-        ] + [f"ts_from_str_fields_{i}" for i in range(6)],
+        ] + [f"ts_from_str_fields_{i}" for i in range(6)] + [f"ts_print_parse_{i}" for i in range(4)],
         "level": "proof",
         "explanation": "",
         "assumptions": [
